@@ -18,7 +18,7 @@ Inductive vcase :=
 | CExp (cfg : list Z) (outs : list (Z * Z)) (ops : list (Z * list Z)) (obs : list Z) (gauges : list Z) (extra : list Z).
     (* cfg = [signal; queue; storage; items sizer; capacity; wait_for_result; qbatch?; qmin; qmax;
               batcher?; bmin; bmax; retry; tracing (spans recording); block_on_overflow; item count the Encoding refuses to marshal (-1 none)];  out = (0 ok|1 transient|2 permanent|3 partial|4 hang, k);
-       op = (0,[n]) offer | (1, ns) burst | (2,[]) flush timer;
+       op = (0,[n]) offer | (1, ns) burst | (2,[]) flush timer | (3, ns) burst, then Shutdown while the gate is closed;
        obs = counter vector after shutdown; gauges = queue-size gauge after each op;
        extra = [capacity gauge; items still stored after shutdown] ++ what each Send through a queue returned
                (0 nil | 1 queue full | 2 too large | 3 context error of a producer that gave up while blocked) *)
@@ -78,7 +78,7 @@ Definition aout_of (p : Z * Z) : aout :=
 
 Definition eop_of (p : Z * list Z) : eop :=
   let '(c, ns) := p in
-  if c =? 0 then OOffer (nth 0%nat ns 0) else if c =? 1 then OBurst ns else OFlush.
+  if c =? 0 then OOffer (nth 0%nat ns 0) else if c =? 1 then OBurst ns else if c =? 3 then OBurstShut ns else OFlush.
 
 Definition exp_run (cfg : list Z) (outs : list (Z * Z)) (ops : list (Z * list Z)) : est :=
   run_exporter (eopts_of cfg) (map aout_of outs) (map eop_of ops).
